@@ -29,8 +29,9 @@ MOD = "mc.props.c11"
 # any slip named in the property (sign, duplicated derivative, unflipped array, index swap: O(1)).
 RTOL_W = 1e-9        # relative, on omega
 ATOL_G = 1e-7        # absolute, on gamma and V dgamma/dV (both O(1) quantities)
-TOL_ID = 1e-3        # scaled residual of the integral identities (trapezoid error on 2001 points:
-                     # h^2/12 |f''| L ~ 1e-7 for smooth pieces, <= h x (sum of jumps) ~ 4e-4 x O(0.1) at C1 knots)
+TOL_ID = 1e-3        # scaled residual of the integral identities: 1e-3 of the range (DESIGN C11) plus the a-posteriori
+                     # trapezoid bound sum h|df|/2 of the oracle's own quadrature (capped at 1e-3): h ~ 4e-4 on 2001 points,
+                     # so second-derivative jumps of a C1 interpolant (pchip: measured 4.7e-4) stay inside; slips are >= 0.1
 
 METHODS = ("spline", "lagrange", "krogh", "pchip", "akima", "hermite", "lsq_poly")   # config.schema.json enum
 NODE_BASED = ("lagrange", "krogh", "pchip", "akima", "hermite")
@@ -40,7 +41,7 @@ DATA = [["power", 0], ["morse", 0]] + [["poly", d] for d in (1, 2, 3, 4, 5)]
 
 DIMS = OrderedDict([
     ("mo", [["lsq_poly", 3]] + [x for x in MO if x != ["lsq_poly", 3]]),     # shipped default first
-    ("nv", [8, 6, 12]),
+    ("nv", [8, 6, 7, 12]),       # 7: the node-based methods keep every third / second volume INCLUDING the last one
     ("data", DATA),
     ("vkind", ["extended", "inside"]),
     ("shape", [[2, 6], [3, 3]]),
@@ -155,7 +156,7 @@ def run_interp(case):
             add(f"c11:{method}:{what}-{where}",
                 f"method={method} order={order} n_V={nv}: {int(bad.sum())} of {ntv} grid volumes give non-finite values in slot (q={q}, m={m}); "
                 f"{int((bad & inside).sum())} of them lie inside the sampled range [{_fmt(min(vols))}, {_fmt(max(vols))}]; "
-                f"first at V={_fmt(v[first])}: omega={ws[first]!r} gamma={gs[first]!r}")
+                f"first at V={_fmt(v[first])}: omega={float(ws[first])!r} gamma={float(gs[first])!r}")
         blk = _finite_block(fin & (ws > 0))
         if fin.any() and not (ws[fin] > 0).all():
             add(f"c11:{method}:omega-not-positive", f"slot (q={q}, m={m}): interpolated omega <= 0 (min {_fmt(ws[fin].min())})")
@@ -186,13 +187,13 @@ def run_interp(case):
                         f"slot (q={q}, m={m}) carries the triple of slot (q={other[0]}, m={other[1]}) (shape n_q={nq}, n_p={npm})")
                 else:
                     i = int(numpy.argmax(numpy.where(fin, numpy.abs(ws / W - 1), 0)))
-                    for name, err, tol in (("omega", ew, RTOL_W), ("gamma", eg, ATOL_G), ("vdgamma", eh, ATOL_G)):
-                        if err > tol:
-                            add(f"c11:{method}:{fam}-inexact:{name}",
-                                f"method={method} order={order} n_V={nv} {case['vkind']} grid, {fam} data"
-                                f"{'' if fam == 'power-law' else f' of degree {degree}'}, slot (q={q}, m={m}): max error of {name} {err:.3e} "
-                                f"(tolerance {tol:g}); at V={_fmt(v[i])}: omega {ws[i]!r} vs analytic {W[i]!r}, gamma {gs[i]!r} vs {G[i]!r}, "
-                                f"V dgamma/dV {hs[i]!r} vs {H[i]!r}")
+                    over = ", ".join(f"{name} {err:.3e} (tolerance {tol:g})" for name, err, tol in
+                                     (("omega [relative]", ew, RTOL_W), ("gamma", eg, ATOL_G), ("V dgamma/dV", eh, ATOL_G)) if err > tol)
+                    add(f"c11:{method}:{fam}-inexact",
+                        f"method={method} order={order} n_V={nv} {case['vkind']} grid, {fam} data"
+                        f"{'' if fam == 'power-law' else f' of degree {degree}'}, slot (q={q}, m={m}): max error of {over}; "
+                        f"at V={_fmt(v[i])}: omega {float(ws[i])!r} vs analytic {float(W[i])!r}, gamma {float(gs[i])!r} vs {float(G[i])!r}, "
+                        f"V dgamma/dV {float(hs[i])!r} vs {float(H[i])!r}")
         else:
             # (4) generic data: the slot must be closest to its own law (inside the sampled range, finite part)
             sel = fin & inside
@@ -206,12 +207,14 @@ def run_interp(case):
                         f"slot (q={q}, m={m}): max |ln w - ln w_law| is {own:.3g} to its own law but {others[s2]:.3g} to the law of slot (q={s2[0]}, m={s2[1]})")
         # (2) one interpolant: integral identities on the returned arrays
         r1, r2 = R.identity_residuals(v[blk], ws[blk], gs[blk], hs[blk])
+        q1, q2 = R.quadrature_bounds(v[blk], gs[blk], hs[blk])      # trapezoid error bound of the oracle itself
+        q1, q2 = min(q1, TOL_ID), min(q2, TOL_ID)                   # never more than doubles the tolerance
         worst["r1"], worst["r2"] = max(worst["r1"], r1), max(worst["r2"], r2)
-        if not r1 <= TOL_ID:
+        if not r1 <= TOL_ID + q1:
             add(f"c11:{method}:triple-inconsistent:gamma-vs-omega",
                 f"method={method} order={order} n_V={nv} {kind}{degree or ''} slot (q={q}, m={m}): ln w(V)-ln w(V0) + int gamma dlnV "
                 f"has scaled residual {r1:.3g} (tolerance {TOL_ID}); gamma is not -dln w/dlnV of the returned omega")
-        if not r2 <= TOL_ID:
+        if not r2 <= TOL_ID + q2:
             add(f"c11:{method}:triple-inconsistent:vdgamma-vs-gamma",
                 f"method={method} order={order} n_V={nv} {kind}{degree or ''} slot (q={q}, m={m}): gamma(V)-gamma(V0) - int (V dgamma/dV) dlnV "
                 f"has scaled residual {r2:.3g} (tolerance {TOL_ID}); the third array is not dgamma/dlnV of the returned gamma")
@@ -311,7 +314,7 @@ def run_plot(case):
             sig = f"c11:plot:n{n}-draws-{what}"
             if sig not in [x_["sig"] for x_ in viol]:
                 viol.append(V(sig, f"plot_modes(ax, n={n}, iq={iq}), curve of mode {k}: y-data is {what} "
-                                   f"(y[0]={y.ravel()[0]!r}), expected {want} (={qs[want][0]!r}); "
+                                   f"(y[0]={float(y.ravel()[0])!r}), expected {want} (={float(qs[want][0])!r}); "
                                    f"mode_gamma is built as [V dgamma/dV, gamma, gamma^2] by Calculator._interpolate_modes"))
         if x.shape != v.shape or not numpy.abs(x / v_ang3 - 1).max() <= 1e-6:
             if "c11:plot:x-not-volume" not in [x_["sig"] for x_ in viol]:
@@ -372,7 +375,7 @@ def explore(ctx):
     cases, results = ctx.run_lattice(MOD, "run_case", dims, None, part="interp-full-product",
                                      extra={"part": "interp"}, canon=canon)
     pc = plot_cases()
-    ctx.run(MOD, "run_case", pc, part="plot", parallel=False)
+    ctx.run(MOD, "run_case", pc, part="plot")
 
     worst_exact = {"w": 0.0, "g": 0.0, "h": 0.0}
     worst_id = {"r1": 0.0, "r2": 0.0}
@@ -385,15 +388,15 @@ def explore(ctx):
         pm["violating"] += 1 if r.get("viol") else 0
         if not wst:
             continue
-        if r.get("exact") and not any(":inexact:" in v_["sig"] or "mixing" in v_["sig"] for v_ in r.get("viol", [])):
+        if r.get("exact") and not any("-inexact" in v_["sig"] or "mixing" in v_["sig"] for v_ in r.get("viol", [])):
             for k in worst_exact:
                 worst_exact[k] = max(worst_exact[k], wst[k])
         if not any("inconsistent" in v_["sig"] for v_ in r.get("viol", [])):
             for k in worst_id:
                 worst_id[k] = max(worst_id[k], wst[k])
-    ctx.notes["alphabets"] = {"method_order": len(MO), "n_V": [8, 6, 12], "data": DATA, "vkind": ["extended", "inside"],
+    ctx.notes["alphabets"] = {"method_order": len(MO), "n_V": [8, 6, 7, 12], "data": DATA, "vkind": ["extended", "inside"],
                               "shape": [[2, 6], [3, 3]], "plot_n": [0, 1, 2], "grid_points": R.N_GRID,
-                              "admissible_method_order_nV": sum(1 for m, o in MO for nv in (6, 8, 12) if o < nv)}
+                              "admissible_method_order_nV": sum(1 for m, o in MO for nv in (6, 7, 8, 12) if o < nv)}
     ctx.notes["per_method"] = per_method
     ctx.notes["tolerances"] = {"omega_rel": RTOL_W, "gamma_abs": ATOL_G, "identity_scaled": TOL_ID}
     ctx.notes["largest_error_among_passing_exact_cases"] = worst_exact
